@@ -71,6 +71,42 @@ DiscoverRule(tree) ==
       rules == sc.rules \cup (IF LoopRuleBroken(flat, sc.pairs) THEN {"loop_rule"} ELSE {})
   IN [accept |-> rules = {}, rules |-> rules, pairs |-> sc.pairs]
 
+\* ------------------------------------------------------------- C12, R7: the implementation's discovery algorithm
+\* A transcription of DiscoverSubcircuits (walkers.py) as a fold over the tree: the walk state is
+\*   [cur (fid of the prepare_all of the open trace, 0 = none), closed (Seq of <<P fid, M fid>>), err (rules hit)]
+\* A block entered by a repeating loop remembers the trace that was open at its entry and fails if that very
+\* trace has been closed when the block ends (the repaired test: commit "a repeating loop is rejected only if
+\* it closes a subcircuit opened before it").  Pinned = TRUE gives the original test (a trace was open at entry and
+\* SOME subcircuit was closed inside).
+RECURSIVE DAlg(_, _, _, _, _)
+RECURSIVE DAlgSeq(_, _, _, _, _)
+\* m: node, base: flat events before m, reps: repetition count passed down by an enclosing loop statement
+DAlg(m, base, reps, w, pinned) ==
+  CASE m.k = "G" ->
+         LET fid == base + 1
+             kind == EvKind(m)
+         IN CASE kind = "P" -> [w EXCEPT !.cur = fid]
+              [] kind = "M" -> IF w.cur = 0 THEN [w EXCEPT !.err = @ \cup {"measure_without_prepare"}]
+                               ELSE [w EXCEPT !.closed = Append(@, <<w.cur, fid>>), !.cur = 0]
+              [] OTHER -> IF w.cur = 0 THEN [w EXCEPT !.err = @ \cup {"gate_outside"}] ELSE w
+    [] m.k = "L" -> DAlg(m.c[1], base, m.cnt.n, w, pinned)          \* visit_LoopStatement: visit the body with reps
+    [] m.k \in {"S", "P"} ->
+         LET entry == w.cur
+             count == Len(w.closed)
+             w2 == DAlgSeq(m.c, base, 1, w, pinned)                 \* statements inside are visited with reps = 1
+             closedEntry == entry # 0 /\ \E x \in (count + 1)..Len(w2.closed) : w2.closed[x][1] = entry
+             bad == IF pinned THEN entry # 0 /\ reps > 1 /\ Len(w2.closed) # count
+                    ELSE reps > 1 /\ closedEntry
+         IN IF bad THEN [w2 EXCEPT !.err = @ \cup {"loop_rule"}] ELSE w2
+    [] OTHER -> w
+DAlgSeq(ms, base, j, w, pinned) ==
+  IF j > Len(ms) THEN w
+  ELSE DAlgSeq(ms, base + FlatSize(ms[j]), j + 1, DAlg(ms[j], base, 1, w, pinned), pinned)
+\* (an error aborts the real walk; the transcription keeps going and collects every rule it would have hit first or later)
+DiscoverAlg(tree, pinned) ==
+  LET w == DAlg(tree, 0, 1, [cur |-> 0, closed |-> <<>>, err |-> {}], pinned)
+  IN [accept |-> w.err = {}, rules |-> w.err, pairs |-> w.closed]
+
 \* ------------------------------------------------------------- C08: visits of the unrolled program
 PairIndex(pairs, pr) == IF \E x \in DOMAIN pairs : pairs[x] = pr THEN CHOOSE x \in DOMAIN pairs : pairs[x] = pr ELSE 0
 \* [indomain, visits (0-based subcircuit numbers in execution order)]
